@@ -37,6 +37,9 @@ PRELUDE = '''
     #[derive(Debug, Clone, PartialEq)] pub struct NameT(pub String);
     #[derive(Debug, Clone, PartialEq)] pub struct U;
     impl AsRef<str> for NameT { fn as_ref(&self) -> &str { &self.0 } }
+    pub static GATE: core::sync::atomic::AtomicBool = core::sync::atomic::AtomicBool::new(true);
+    #[inline(never)] pub fn gate() -> bool { GATE.load(core::sync::atomic::Ordering::Relaxed) }
+    #[inline(never)] pub fn gate2() -> bool { !GATE.load(core::sync::atomic::Ordering::Relaxed) }
 '''
 
 EQ_OPERANDS = {'i32': '&7', 'bool': '&true', 'char': "&'q'", 'opt': '&Some(1)', 'enum': '&E::A', 'tuple': '&(1, true)', 'struct': '&S { a: 1, b: true }', 'string': '&String::from("z")'}
@@ -166,6 +169,9 @@ def generate(tier, seed):
         cases.append(dict(kinds=[k] * arity, alts=[a0, a1], guard=None, form='disj'))
     # (5) empty matcher
     cases.append(dict(kinds=[], alts=[[]], guard=None, form='empty'))
+    # (5b) a function without arguments still has a pattern - the empty tuple - and may carry a guard (one and two alternatives)
+    cases.append(dict(kinds=[], alts=[[]], guard='gate()', form='unitguard'))
+    cases.append(dict(kinds=[], alts=[[], []], guard='gate() && !gate2()', form='unitguard'))
 
     lines = ['pub mod pats {', '    use unimock::*;', PRELUDE]
     descs = []
@@ -232,7 +238,9 @@ def generate(tier, seed):
                     pats.append(p)
             pat = pats[0] if n == 1 else '(%s)' % ', '.join(pats)
             arms.append('%s%s => true,' % (pat, (' if ' + ' && '.join(guards)) if guards else ''))
-        if n == 0:
+        if n == 0 and c['guard']:
+            ref = 'pub fn ref_%d(inputs: &()) -> bool { let _ = inputs; match () { %s _ => false } }' % (idx, ' '.join(arms))
+        elif n == 0:
             ref = 'pub fn ref_%d(inputs: &()) -> bool { true }' % idx
         else:
             sc = scrut[0] if n == 1 else '(%s)' % ', '.join(scrut)
